@@ -27,6 +27,10 @@ RULE = (
     "Non-trivial and distinct = distinct (corpus, filter, spelling) triples with a non-empty result, plus "
     "distinct (corpus, filter, grouping key, default) with >= 2 groups or >= 2 members in a group."
 )
+RULE += (
+    " " + 'Added later: /regex/ tokens whose pattern holds slashes; two groupby generators of one cursor consumed in step; the selection helper behind -f/--filter of diff / schema / sync; one job directory moved aside and symlinked back.'
+    " In every third case DEBUG logging is effective for the package."
+)
 ASSUMPTIONS = [
     "Spellings are compared with the real result of the canonical spelling (metamorphic); the canonical spelling "
     "itself is tied to the evaluator by C06.",
